@@ -97,6 +97,10 @@ def _gen_commuting(case):
     nsteps = int(rng.integers(3, 9 if quick else 12))
     if d == 4:
         nsteps = min(nsteps, 6)
+    if d == 3 and i % 2 == 1:
+        # PT-TEMPO with 9-dimensional legs: bond dimensions (and SVD times,
+        # > 1 h per case at N = 11, strong coupling) explode beyond N ~ 8
+        nsteps = min(nsteps, 8)
     long_times = bool(i % 16 in (5, 12))
     if long_times:
         # long times: cutoff*t up to ~200 (strongly oscillating frequency
